@@ -837,9 +837,8 @@ func (g *gen) emitOpt(strMode bool, stripQ bool) string { return g.emitFull(strM
 func (g *gen) emitFull(strMode bool, stripQ bool, noAssume map[int]bool) string {
 	var sb strings.Builder
 	sb.WriteString("(set-option :produce-models true)\n(set-logic ALL)\n")
-	sb.WriteString(preludeCommon)
+	sb.WriteString(preludeFor(strMode))
 	if strMode {
-		sb.WriteString(preludeStrTheory)
 		sb.WriteString("(define-fun strcat ((a Str) (b Str)) Str (str.++ a b))\n")
 	} else {
 		sb.WriteString(preludeStrAbstract)
@@ -938,9 +937,8 @@ func (g *gen) emitTarget(strMode bool, stripQ bool, noAssume map[int]bool, targe
 	}
 	var sb strings.Builder
 	sb.WriteString("(set-option :produce-models true)\n(set-logic ALL)\n")
-	sb.WriteString(preludeCommon)
+	sb.WriteString(preludeFor(strMode))
 	if strMode {
-		sb.WriteString(preludeStrTheory)
 		sb.WriteString("(define-fun strcat ((a Str) (b Str)) Str (str.++ a b))\n")
 	} else {
 		sb.WriteString(preludeStrAbstract)
